@@ -53,3 +53,15 @@ _mk("C02",
                "the model is tied to the implementation by the exhaustive operator x operand-class table run through both.",
     level_note="Float arithmetic itself is IEEE hardware on both sides (trusted); parser literal folding is outside this property (C06/C07).",
     extra_tb=[TB_FLOAT], exhaustive=True)
+
+_mk("C04",
+    ["Platypus.Model.Eval"],
+    rule="exhaustive slice grid: every list and string (ASCII and multi-byte) of length 0..3 (quick) / 0..5 (thorough) x (start,end,step) each omitted, "
+         "in -4..4 (quick) / -8..8 (thorough) or in {+-2^31, max int64, min int64}; every index read/write path of depth <= 2 (all) and 3 (sampled quick / all thorough) "
+         "over nested list/map shapes with in-range, negative, out-of-range and wrongly typed keys; len/in over collection classes; "
+         "random alias/mutate/add_key-snapshot programs; strict: any disagreement with the model is a specification failure",
+    technique="Lean 4 theorem slice indices = CPython PySlice_AdjustIndices+range for all lengths < 2^62 and all int64 bounds/steps (no overflow, all indices in range) + heap frame/alias theorems + exhaustive slice-grid and index-path correspondence",
+    level_text="Kernel-checked: the index sequence computed by the model of sliceBounds/loop (Go int wrap-around arithmetic) equals Python's for every length and every int64 start/end/step, "
+               "lies in [0,len) and has the capacity passed to make; index writes are visible through every alias and leave other objects unchanged. The model is tied to runtime.go by the exhaustive grid.",
+    level_note="JSON text of lists/maps copied into the point is produced by encoding/json (oracle: the harness marshals the model's view of the value).",
+    extra_tb=[TB_FLOAT, "encoding/json text of a list/map value (oracle answered by the harness from the model's own rendering of the value)"], exhaustive=True)
